@@ -706,7 +706,7 @@ class Doman(_InstallWrapper):
     insoptions_default = "-m0644"
 
     arg_parser = IpcArgumentParser(parents=(_InstallWrapper.arg_parser,))
-    arg_parser.add_argument("-i18n", action="store_true", default="")
+    arg_parser.add_argument("-i18n", default="")
 
     detect_lang_re = re.compile(r"^(\w+)\.([a-z]{2}([A-Z]{2})?)\.(\w+)$")
     valid_mandir_re = re.compile(r"man[0-9n](f|p|pm)?$")
